@@ -40,6 +40,12 @@ fn pairs(fam: KsfFamily, g: &mut Gen, thorough: bool) -> Vec<(KsfArg, KsfArg)> {
                 (small.clone(), Argon2 { m: 8, t: 2, p: 1 }),
                 (Absent, small.clone()),
                 (small.clone(), Absent),
+                // same cost, another variant / version: a different instance
+                (small.clone(), Argon2Alg { alg: 0, v10: false, m: 8, t: 1, p: 1 }),
+                (Argon2Alg { alg: 1, v10: false, m: 8, t: 1, p: 1 }, small.clone()),
+                (Argon2Alg { alg: 1, v10: false, m: 8, t: 1, p: 1 }, Argon2Alg { alg: 1, v10: false, m: 8, t: 1, p: 1 }),
+                (small.clone(), Argon2Alg { alg: 2, v10: true, m: 8, t: 1, p: 1 }),
+                (small.clone(), Argon2Alg { alg: 2, v10: false, m: 8, t: 1, p: 1 }),
             ];
             if thorough || g.chance(1, 2) {
                 v.push((Absent, Argon2Default));
@@ -78,7 +84,13 @@ pub fn gen_world(seed: u64, idx: u64, s: &dyn SuiteOps, mode: usize, thorough: b
             let (ka, kb) = match fam {
                 KsfFamily::Sim => (KsfArg::Sim(3), KsfArg::Sim(4)),
                 KsfFamily::Identity => unreachable!(),
-                KsfFamily::Argon2 => (KsfArg::Argon2 { m: 8, t: 1, p: 1 }, KsfArg::Argon2 { m: 16, t: 1, p: 1 }),
+                KsfFamily::Argon2 => {
+                    if idx % 2 == 0 {
+                        (KsfArg::Argon2 { m: 8, t: 1, p: 1 }, KsfArg::Argon2 { m: 16, t: 1, p: 1 })
+                    } else {
+                        (KsfArg::Argon2 { m: 8, t: 1, p: 1 }, KsfArg::Argon2Alg { alg: 0, v10: false, m: 8, t: 1, p: 1 })
+                    }
+                }
             };
             let ts = b.tape("regstart-shared");
             let tf = b.tape("regfinish-shared");
